@@ -12,7 +12,7 @@ import tarfile
 def ustar_header(name, size, typeflag=b"0", magic=b"ustar\x0000", extra=None):
     h = bytearray(512)
     nb = name.encode()
-    h[0:len(nb)] = nb[:100]
+    h[0:min(len(nb), 100)] = nb[:100]
     h[100:108] = b"0000644\x00"
     h[108:116] = b"0000000\x00"
     h[116:124] = b"0000000\x00"
@@ -36,14 +36,14 @@ def build(rng):
     visor = rng.random() < 0.75
     for i in range(nm):
         kind = rng.choice(["file", "file", "file", "empty", "dir"])
-        name = rng.choice(["a", "bin/x", "etc/conf.d/" + "n" * rng.randint(1, 60), "usr/lib/vmware/file%d" % i, "ü%d" % i]) + str(i)
+        name = rng.choice(["a", "bin/x", "etc/conf.d/" + "n" * rng.randint(1, 60), "usr/lib/vmware/file%d" % i, "ü%d" % i, "opt/" + "long" * rng.randint(26, 40)]) + str(i)
         size = 0 if kind != "file" else rng.choice([1, 511, 512, 513, 4096, rng.randint(1, 3000)])
         data = bytes((i * 31 + j) & 0xFF for j in range(size))
         members.append((kind, name, data))
     expected = {}
     if not visor:
         bio = io.BytesIO()
-        with tarfile.open(fileobj=bio, mode="w", format=tarfile.USTAR_FORMAT) as t:
+        with tarfile.open(fileobj=bio, mode="w", format=tarfile.GNU_FORMAT) as t:
             for kind, name, data in members:
                 ti = tarfile.TarInfo(name)
                 if kind == "dir":
@@ -56,10 +56,10 @@ def build(rng):
                     expected[name] = data
         return bio.getvalue(), expected, {"visor": False, "members": [(k, n, len(d)) for k, n, d in members]}
     # visor: all headers first, data area afterwards in a shuffled order, page aligned or not
-    hdr_len = 512 * (len(members) + 2)
+    hdr_len = 512 * (len(members) + 2) + sum(512 + (len(nm.encode()) + 1 + 511) // 512 * 512 for _k, nm, _d in members if len(nm.encode()) > 100)
     order = [i for i, m in enumerate(members) if m[0] == "file"]
     rng.shuffle(order)
-    pos = hdr_len + rng.choice([0, 512, 4096 - hdr_len % 4096])
+    pos = hdr_len + rng.choice([0, 512, 4096 - hdr_len % 4096, (1 << 24) + 4096])  # sometimes a data area beyond 16 MiB
     offs = {}
     area = bytearray()
     base = pos
@@ -69,7 +69,13 @@ def build(rng):
         offs[i] = base + len(area)
         area += members[i][2]
     out = bytearray()
+    def longname(nm):
+        nb_ = nm.encode() + b"\x00"
+        return ustar_header("././@LongLink", len(nb_), b"L", b"ustar  \x00") + nb_ + b"\x00" * ((512 - len(nb_) % 512) % 512)
+
     for i, (kind, name, data) in enumerate(members):
+        if len(name.encode()) > 100:
+            out += longname(name)
         if kind == "dir":
             out += ustar_header(name, 0, b"5", b"visor  ", {496: 0, 504: 0, 508: 0})
             expected[name] = None
